@@ -447,7 +447,8 @@ def cost_rules(run, db):
         return orig_ext(dotted, args, kwargs, node)
     dom.call_ext = call_ext
     for name, kw, wrt in (('mean_square_error', lambda: {'M': vec('M'), 'D': vec('D'), 'mask': Const(None)}, 'M'),
-                          ('negative_loglikelihood', lambda: {'y': vec('y'), 'yhat': vec('t'), 'mask': Const(None)}, 'y')):
+                          ('negative_loglikelihood', lambda: {'y': vec('y'), 'yhat': vec('t'), 'mask': Const(None)}, 'y'),
+                          ('bias_and_gain_invariant_error', lambda: {'I': vec('I'), 'D': vec('D'), 'mask': Const(None)}, 'I')):
         f = db.func(C + name)
         res = returns(it.run(f, kwargs=kw), f)
         v = res[0].value
